@@ -45,7 +45,7 @@ func c07Cells() []c07Cell {
 	} {
 		for _, r := range sc.rpcs {
 			for _, mode := range []string{"fail-before-delivery", "deliver-lose-response"} {
-				for _, pat := range []string{"first", "first-3", "every"} {
+				for _, pat := range []string{"first", "first-3", "every", "from-2nd-on"} {
 					out = append(out, c07Cell{sc.name, r.m, r.a, mode, pat})
 				}
 			}
@@ -65,7 +65,7 @@ type c07Ring struct {
 
 var c07Keys = func() []string {
 	var out []string
-	for i := 0; i < 20; i++ {
+	for i := 0; i < 400; i++ {
 		out = append(out, fmt.Sprintf("c07/key-%02d", i))
 	}
 	return out
@@ -130,7 +130,11 @@ func runC07Cell(t tfail, rec *ev.Recorder, ring c07Ring, cell c07Cell) *c07Resul
 	if cell.Pattern == "every" {
 		to = 1 << 30 // the fault persists until the attempt has used up all of its retries
 	}
-	rule := r.net.AddRule(&ringsim.FaultRule{Method: cell.Method, Arg: cell.Arg, AnyCaller: true, AnyCallee: true, Mode: mode, From: 1, To: to})
+	from := 1
+	if cell.Pattern == "from-2nd-on" {
+		from, to = 2, 1<<30 // the first occurrence goes through (e.g. the first batch of a transfer), every later one fails
+	}
+	rule := r.net.AddRule(&ringsim.FaultRule{Method: cell.Method, Arg: cell.Arg, AnyCaller: true, AnyCallee: true, Mode: mode, From: from, To: to})
 
 	sorted := sortedIDs(ring.IDs)
 	switch cell.Scenario {
@@ -230,7 +234,7 @@ func runC07Cell(t tfail, rec *ev.Recorder, ring c07Ring, cell c07Cell) *c07Resul
 
 func TestC07(t *testing.T) {
 	rec := ev.New(t, "C07")
-	rec.Rule("fault enumeration: for every rapid-generated ring (2..5 real LocalNodes with ids next to the keys' hashes, 5..20 acknowledged keys with values and prefix children, generated joiner position / leaver) the COMPLETE product {RequestToJoin, Import, FinishJoin(stabilize), FinishJoin(release)} x {join} and {RequestToLeave, Import, FinishLeave(stabilize), FinishLeave(release)} x {leave} x {request dropped before delivery, delivered but response lost (caller sees a deadline error)} x {first occurrence, first three occurrences, every occurrence until the attempt has exhausted its retries} = 48 cells (the 'every' pattern for the first ring only in the quick tier) is executed: the fault is injected in the RPC proxy, the real Join/Leave runs to completion (incl. its retry loop), faults are cleared, the ring gets a quiet period of <= 80 maintenance rounds. Oracle: every remaining node is Active and every acknowledged key/child is readable with its value through every remaining node (retryable errors retried <= 60x). An evaluation is one (ring, cell); non-trivial: the fault actually fired. Distinct = (ring, cell).")
+	rec.Rule("fault enumeration: for every rapid-generated ring (2..5 real LocalNodes with ids next to the keys' hashes, 5..20 acknowledged keys with values and prefix children, generated joiner position / leaver) the COMPLETE product {RequestToJoin, Import, FinishJoin(stabilize), FinishJoin(release)} x {join} and {RequestToLeave, Import, FinishLeave(stabilize), FinishLeave(release)} x {leave} x {request dropped before delivery, delivered but response lost (caller sees a deadline error)} x {first occurrence, first three occurrences, every occurrence until the attempt has exhausted its retries, every occurrence but the first} = 64 cells (the two persistent patterns for the first ring only in the quick tier); rings hold 5..20 or 100..400 acknowledged keys is executed: the fault is injected in the RPC proxy, the real Join/Leave runs to completion (incl. its retry loop), faults are cleared, the ring gets a quiet period of <= 80 maintenance rounds. Oracle: every remaining node is Active and every acknowledged key/child is readable with its value through every remaining node (retryable errors retried <= 60x). An evaluation is one (ring, cell); non-trivial: the fault actually fired. Distinct = (ring, cell).")
 	rec.Assume("faults are injected at the RPC boundary only (the proxy emulates RemoteNode: a lost response surfaces as context.DeadlineExceeded); nodes do not crash in this property")
 	cells := c07Cells()
 	rec.Note("cells_per_ring", len(cells))
@@ -247,16 +251,28 @@ func TestC07(t *testing.T) {
 		ring := c07Ring{
 			IDs:    ids,
 			Vias:   rapid.SliceOfN(rapid.IntRange(0, 1<<20), len(ids), len(ids)).Draw(t, "vias"),
-			NKeys:  rapid.IntRange(5, 20).Draw(t, "nkeys"),
+			NKeys:  rapid.OneOf(rapid.IntRange(5, 20), rapid.IntRange(5, 20), rapid.IntRange(100, 400)).Draw(t, "nkeys"),
 			Actor:  rapid.IntRange(0, 1<<10).Draw(t, "actor"),
 			Via:    rapid.IntRange(0, 1<<10).Draw(t, "via"),
 			Offset: rapid.SampledFrom([]int{0, 1, 1 << 20, 1 << 30}).Draw(t, "offset"),
 		}
 		ringNo++
+		if !ev.Thorough() {
+			// quick tier: ring 1 small with every pattern, ring 2 LARGE (transfers of > 64 keys) but
+			// only the Import cells, ring 3 small without the persistent patterns
+			if ringNo == 2 {
+				ring.NKeys = 150
+			} else if ring.NKeys > 20 {
+				ring.NKeys = 5 + ring.NKeys%16
+			}
+		}
 		for _, cell := range cells {
+			if !ev.Thorough() && ringNo == 2 && cell.Method != "Import" {
+				continue
+			}
 			// the "every occurrence" pattern makes the real retry loops run to exhaustion (~2 s of
 			// back-off each): all rings in the thorough tier, the first ring only in the quick tier
-			if cell.Pattern == "every" && !ev.Thorough() && ringNo > 1 {
+			if (cell.Pattern == "every" || cell.Pattern == "from-2nd-on") && !ev.Thorough() && ringNo > 2 {
 				continue
 			}
 			res := runC07Cell(t, rec, ring, cell)
